@@ -90,6 +90,34 @@ def run(tier, seed, replay=None):
         if c4 and r4 > 10 * thr:
             V.fail("gmres_restart reports convergence with a residual above the threshold", {"size": m, "threshold": thr, "restarted": r4})
     dist["local gmres contract"] = n_loc
+    # ---- the frame identity (C12_entry_frame / _setc / _setc_add) on the implementation, exactly (integer cores): the dense value as a
+    #      function of one core is  L_k (x) G_k (x) R_k  with the interfaces of the OTHER cores, and it is additive in that core
+    n_frame = 0
+    for j in range(40 if tier == "quick" else 400):
+        d = rng.choice([1, 2, 3, 4, 5]); N = [rng.choice([1, 2, 3, 4]) for _ in range(d)]
+        Rr = [1] + [rng.randint(1, 3) for _ in range(d - 1)] + [1]
+        ic = lambda shp: torch.tensor(np.array([rng.randint(-3, 3) for _ in range(int(np.prod(shp)))]).reshape(shp), dtype=torch.float64)
+        cores = [ic((Rr[k], N[k], Rr[k + 1])) for k in range(d)]
+        k = rng.randrange(d); c1, c2 = ic(tuple(cores[k].shape)), ic(tuple(cores[k].shape))
+        desc = {"N": N, "R": Rr, "core": k}
+        try:
+            x = torchtt.TT([c.clone() for c in cores])
+            def with_core(c):
+                y = x.clone(); y.set_core(k, c.clone()); return y.full()
+            f1, f2, f12 = with_core(c1), with_core(c2), with_core(c1 + c2)
+            L = torch.ones(1, 1, dtype=torch.float64)
+            for c in cores[:k]: L = torch.tensordot(L, c, dims=([-1], [0]))
+            Rt = torch.ones(1, 1, dtype=torch.float64)
+            for c in reversed(cores[k + 1:]): Rt = torch.tensordot(c, Rt, dims=([-1], [0]))
+            Lm = L.reshape(-1, Rr[k]); Rm = Rt.reshape(Rr[k + 1], -1)
+            frame = torch.einsum('ap,piq,qb->aib', Lm, c1, Rm).reshape(N)
+            n_frame += 1
+            if not torch.equal(f12, f1 + f2): V.fail("frame: the dense value is not additive in a single core (set_core)", desc)
+            if not torch.equal(f1, frame): V.fail("frame: full() after set_core differs from L_k x G_k x R_k built from the other cores", desc)
+            if not torch.equal(x.full(), torchtt.TT([c.clone() for c in cores]).full()): V.fail("frame: set_core on a clone changed the original", desc)
+        except Exception as ex:
+            V.fail("frame identity check raises %s" % type(ex).__name__, dict(desc, exc=str(ex)[:200]))
+    dist["frame identity (exact)"] = n_frame
     for i in range(n):
         A, b, N, kind = gen_system(rng, torch, torchtt)
         eps = rng.choice([1e-10, 1e-8, 1e-6, 1e-4, 1e-3])
@@ -135,7 +163,8 @@ def run(tier, seed, replay=None):
         rule=("amen_solve on SPD (P^T P + 2I), diagonally dominant (3I + small P) and discrete-Laplacian-like (sum of 1-d second differences + shift) TT operators of order 2..5, "
               "mode sizes 2..12, operator ranks 1..4, right-hand sides of rank 1..4, eps 1e-10..1e-3, preconditioner None/'c'/'r', max_full 0 (GMRES / BiCGSTAB) or 500 (dense local "
               "solve), with and without a random initial guess, random seeds; measured: dense relative residual <= %g*eps, result shape / well-formedness, bitwise integrity of A, b "
-              "and the guess; the Coq model of the residual-driven rank search is compared with a transcription of the Python loop on every residual pattern for n <= 7") % CONST,
+              "and the guess; the frame identity x = L_k x G_k x R_k and additivity in one core (C12_entry_frame / _setc_add) checked exactly on integer cores through set_core / full; "
+              "the Coq model of the residual-driven rank search is compared with a transcription of the Python loop on every residual pattern for n <= 7") % CONST,
         samples=samples, distribution=dist, rank_search_patterns_agreeing=n_search, known_findings_reproduced=V.known_hit,
         partial=["convergence of the AMEn sweeps (residual <= C*eps for every system of the stated classes and every seed) is an empirical contract: measured, not proved"])
     common.write_evidence(PID, tier, seed, cov, time.time() - t0, nviol, common.TRUSTED_BASE)
